@@ -311,6 +311,41 @@ static int run_pos(const case_t *c, mx_result_t *r)
         verdict = 1;
         break;
     }
+    case V_RSALONG:
+    {
+        /* psVerifySig with an RSA key and a reference message LONGER than any digest (what the X.509 validator passes when a
+           certificate's signatureAlgorithm says Ed25519 while its issuer's key is RSA): the signature is a well-formed
+           PKCS #1 type-1 block carrying exactly that message.  No memory may be touched outside the buffers, and a raw
+           message is not a PKCS #1 v1.5 signature of anything: never accepted. */
+        static const int lens[] = { 65, 100, 117, 200, 245, 501 };
+        static const int32 oids[] = { OID_ED25519_KEY_ALG, OID_SHA256_RSA_SIG, OID_SHA512_RSA_SIG };
+        rsakey_t *K = rsa_get(c->k);
+        unsigned char msg[512], em[512], sig[512], *hm, *hs;
+        psVerifyOptions_t o;
+        psBool_t res = PS_FALSE;
+        int li = (int) (c->i / 3), oi = (int) (c->i % 3), L, k, rc, j;
+        if (!K || c->i < 0 || li >= (int) (sizeof(lens) / sizeof(lens[0]))) return NA;
+        L = lens[li]; k = K->k;
+        if (L > k - 11) return NA;
+        fill_bytes(msg, (size_t) L, "rsa-long-message", c->k);
+        em[0] = 0; em[1] = 1;
+        for (j = 2; j < k - L - 1; j++) em[j] = 0xff;
+        em[k - L - 1] = 0;
+        memcpy(em + k - L, msg, (size_t) L);
+        if (rsa_priv_op(K, em, k, sig, NULL) < 0) { internal_err(r, "priv-op", "cannot sign"); return 0; }
+        snprintf(r->desc, sizeof(r->desc), "%s (RSA-%d: psVerifySig of a %d-byte reference message against a type-1 block carrying it, algorithm id %d)", md, c->k, L, (int) oids[oi]);
+        hm = hdup(msg, (size_t) L); hs = hdup(sig, (size_t) k);
+        memset(&o, 0, sizeof(o));
+        rc = psVerifySig(NULL, hm, (psSizeL_t) L, hs, (psSize_t) k, &K->mx, oids[oi], &res, &o);
+        free(hm); free(hs);
+        if (rc == PS_SUCCESS && res == PS_TRUE)
+        {
+            snprintf(key, sizeof(key), "rsa-long-reference-message|%d|len=%d|accepted", c->k, L);
+            violate(r, key, "psVerifySig ACCEPTED a %d-byte raw message as an RSA-%d PKCS#1 v1.5 signature (rc %d)", L, c->k, rc);
+        }
+        verdict = 1;
+        break;
+    }
     case V_PSSSIGN:
     {
 #ifdef USE_PKCS1_PSS
